@@ -430,9 +430,6 @@ Proof.
   intros H. change (last_N (x :: n :: r)) with (last_N (n :: r)) in H. apply IH in H. discriminate.
 Qed.
 
-Definition span_words (idx : list N) : N :=
-  match last_N idx with None => 0 | Some m => word_of m + 1 end.
-
 Theorem bm_of_spec : forall idx,
   StronglySorted N.lt idx -> Forall (fun i => i < int32_max) idx ->
   exists ws, bm_of idx = Val ws /\ words_ok ws /\
